@@ -27,7 +27,7 @@ ID = "C10"
 LEVEL = "model_checking"
 DESIGN_REF = "DESIGN.md 4/C10"
 RULE = (
-    "case = (configuration, operation, schedule): 21 hand-shaped namespace trees (three of them beyond small scope: 13 legacy files, 10 versions with 1..3-digit numbers, 28 definitions) (nesting 0..2, several versions of one name, legacy "
+    "case = (configuration, operation, schedule): 22 hand-shaped namespace trees (three of them beyond small scope: 13 legacy files, 10 versions with 1..3-digit numbers, 28 definitions) (nesting 0..2, several versions of one name, legacy "
     ".uavcan files, two roots, cross-root references, targets that are also dependencies sorting before / after their referrer, "
     "diamonds, stray non-definition files) x {read_namespace; read_files for every non-empty target subset (<=5 files: all subsets, "
     "else singles, pairs and the full set) in sorted and reversed list order}; schedules: every choice point (rglob result order, "
@@ -79,6 +79,8 @@ def configs():
     C["versions-digit-counts"] = {"root": "ra", "lookups": [], "defs": [D("ra", "ra.A", v) for v in ((0, 120), (0, 42), (0, 5), (100, 0), (99, 1), (9, 255), (10, 0), (2, 0), (0, 100), (0, 99))] + [D("ra", "ra.B", (0, 1), [("ra.A", (0, 120)), ("ra.A", (0, 42))])]}
     C["wide"] = {"root": "ra", "lookups": ["rb"], "defs": [D("ra", "ra.T%02d" % i, (1, 0), ([("ra.T%02d" % (i - 1), (1, 0))] if i % 5 == 4 else []) + ([("rb.X%d" % (i % 3), (1, 0))] if i % 4 == 0 else [])) for i in range(24)] + [D("rb", "rb.X%d" % i, (1, 0)) for i in range(4)]}
     C["same-name-roots"] = {"root": "p/ra", "lookups": ["q/ra"], "defs": [D("p/ra", "ra.A", (1, 0), [("ra.X", (1, 0))]), D("q/ra", "ra.X", (1, 0)), D("q/ra", "ra.Y", (1, 0))]}
+    # a nested namespace that repeats the name of the root namespace (legal): the root given BY NAME is the outermost directory of that name
+    C["namespace-repeats-root"] = {"root": "ra", "lookups": [], "defs": [D("ra", "ra.A", (1, 0)), D("ra", "ra.v.D", (1, 0)), D("ra", "ra.v.ra.B", (2, 0)), D("ra", "ra.v.ra.B", (1, 1), [("ra.v.D", (1, 0))]), D("ra", "ra.v.ra.c.C", (1, 0), [("ra.v.ra.B", (1, 1)), ("ra.A", (1, 0))])]}
     return C
 
 
